@@ -18,6 +18,7 @@ import (
 	"sort"
 	"strings"
 	"testing"
+	"time"
 
 	"github.com/rhysd/actionlint/verifshim/vsched"
 )
@@ -436,6 +437,69 @@ func c18Sites() map[int]bool {
 	return m
 }
 
+// c18Large: termination on LARGE graphs: layered pipelines in which every job of a stage needs every job of the stage before (the number of paths doubles / triples with every stage), acyclic and closed into one long cycle; long chains; a wide fan. A search that forgets what it has finished does not come back from these in any reasonable time: horizon 60 s (the pinned tree needs milliseconds), reported as a violation of "terminates for every graph".
+func c18Large(r *vReport) {
+	type big struct {
+		name   string
+		src    string
+		cyclic bool
+	}
+	layered := func(width, stages int, closeCycle bool) string {
+		var b strings.Builder
+		b.WriteString("on: push\njobs:\n")
+		for st := 0; st < stages; st++ {
+			for w := 0; w < width; w++ {
+				fmt.Fprintf(&b, "  s%dj%d:\n", st, w)
+				var needs []string
+				if st > 0 {
+					for pw := 0; pw < width; pw++ {
+						needs = append(needs, fmt.Sprintf("s%dj%d", st-1, pw))
+					}
+				} else if closeCycle && w == 0 {
+					needs = append(needs, fmt.Sprintf("s%dj%d", stages-1, width-1))
+				}
+				if len(needs) > 0 {
+					fmt.Fprintf(&b, "    needs: [%s]\n", strings.Join(needs, ", "))
+				}
+				b.WriteString("    runs-on: ubuntu-latest\n    steps:\n      - run: echo\n")
+			}
+		}
+		return b.String()
+	}
+	bigs := []big{
+		{"2 jobs x 48 stages, acyclic", layered(2, 48, false), false},
+		{"3 jobs x 30 stages, acyclic", layered(3, 30, false), false},
+		{"2 jobs x 48 stages, closed into a cycle", layered(2, 48, true), true},
+		{"1 job x 400 stages (chain), acyclic", layered(1, 400, false), false},
+		{"1 job x 400 stages (chain), cyclic", layered(1, 400, true), true},
+		{"40 jobs x 3 stages (wide), acyclic", layered(40, 3, false), false},
+	}
+	for _, bg := range bigs {
+		done := make(chan vLintResult, 1)
+		go func() { done <- vLint(bg.src, nil) }()
+		r.Evaluations++
+		r.Transitions++
+		r.Validated++
+		select {
+		case res := <-done:
+			cycles := 0
+			for _, d := range vDiags(res.Errs) {
+				if strings.Contains(d.Msg, "cyclic dependencies") {
+					cycles++
+				}
+			}
+			if res.Panic != "" || res.Err != nil {
+				r.Violation("e2e-failure", fmt.Sprintf("large graph %s: panic=%q err=%v", bg.name, vTrunc(res.Panic, 300), res.Err), map[string]any{"n": 0, "desc": "large " + bg.name})
+			} else if (cycles == 1) != bg.cyclic || cycles > 1 {
+				r.Violation("large-graph-verdict", fmt.Sprintf("large graph %s: %d cyclic-dependency diagnostics, cyclic=%v", bg.name, cycles, bg.cyclic), map[string]any{"n": 0, "desc": "large " + bg.name})
+			}
+		case <-time.After(60 * time.Second):
+			r.Violation("termination", fmt.Sprintf("large graph %s (%d lines): the check had not finished after 60 s", bg.name, strings.Count(bg.src, "\n")), map[string]any{"n": 0, "desc": "large " + bg.name})
+		}
+		r.Class("large graph "+bg.name, bg.cyclic)
+	}
+}
+
 func TestVerifC18(t *testing.T) {
 	r := vNewReport("C18")
 	defer r.Write(t)
@@ -444,7 +508,7 @@ func TestVerifC18(t *testing.T) {
 		r.HarnessError("expected >= 2 map-order sites in rule_job_needs.go, found %d", len(sites))
 		return
 	}
-	r.Extra["rule"] = "every directed graph on <=4 jobs (thorough: + loop-free graphs on 5 jobs) x needs-entry orders x {one dangling, two dangling in one job (3 placements), one dangling in each of two jobs - different ids and the same id -, one duplicate} entry x every iteration order of the rule's nodes map (Engine A map-order choices at the sites of rule_job_needs.go, deviation budget 1, thorough 2 for <=3 jobs); the graphs on <=3 jobs again with ids in unusual spellings, ids containing each other, pairs of ids that concatenate to the same text (plainly, around '-' and '_'), every letter in two cases; class = (cyclic|acyclic|dangling|dup) x printed cycle length; non-trivial = class other than acyclic-clean"
+	r.Extra["rule"] = "every directed graph on <=4 jobs (thorough: + loop-free graphs on 5 jobs) x needs-entry orders x {one dangling, two dangling in one job (3 placements), one dangling in each of two jobs - different ids and the same id -, one duplicate} entry x every iteration order of the rule's nodes map (Engine A map-order choices at the sites of rule_job_needs.go, deviation budget 1, thorough 2 for <=3 jobs); the graphs on <=3 jobs again with ids in unusual spellings, ids containing each other, pairs of ids that concatenate to the same text (plainly, around '-' and '_'), every letter in two cases; 6 large layered graphs (up to 96 jobs, path counts up to 2^47) with a 60 s horizon for termination; class = (cyclic|acyclic|dangling|dup) x printed cycle length; non-trivial = class other than acyclic-clean"
 	r.Extra["assumptions"] = []string{"job ids drawn from 5 fixed spellings with mixed case", "needs graphs with more than 5 jobs are not explored"}
 	maxFull := 4
 	r.Bounds["jobs_all_graphs"] = maxFull
@@ -462,6 +526,11 @@ func TestVerifC18(t *testing.T) {
 		}
 		if c.IDs != nil {
 			c18IDs = c.IDs
+		}
+		if strings.HasPrefix(c.Desc, "large ") {
+			c18Large(r)
+			r.Class("replay", true)
+			return
 		}
 		for k := 0; k < 2; k++ {
 			d := c18RunRule(&c)
@@ -619,6 +688,10 @@ func TestVerifC18(t *testing.T) {
 			}
 		}
 		c18IDs, c18Ghosts = ids, ghosts
+	}
+
+	if r.Shard == 0 {
+		c18Large(r)
 	}
 
 	// end-to-end slice: every graph on <= 3 jobs through Linter.Lint (YAML text, real parser,
